@@ -1,7 +1,8 @@
 #!/bin/bash
 # seedtest.sh <seed-dir (worktree with out/)> <name> <check-id> [more check ids] : confirm the seeded change's demo
-# in the scratch worktree, then apply it to /repo, run the checks (quick tier), undo, and store it in /verif/seeded/<name>/
+# in the scratch worktree, then apply it to /repo, run the checks (quick tier), undo, and store it in $V/seeded/<name>/
 export GOFLAGS=-mod=mod GOPROXY=off GOSUMDB=off GOTOOLCHAIN=local
+V=$(cd $(dirname $0); pwd)
 W=$1; NAME=$2; shift 2
 cd $W || exit 2
 DEMO=$(python3 -c "import json;print(json.load(open('out/meta.json'))['demo_cmd'])")
@@ -11,12 +12,12 @@ git apply out/patch.diff || { echo "patch does not apply in worktree"; exit 2; }
 echo "== build with change:"; go build ./... && echo ok
 echo "== demo with change:"; (eval "$DEMO") >/tmp/seed_demo_mut.txt 2>&1; echo "rc=$?"
 git checkout -q -- .
-mkdir -p /verif/seeded/$NAME && cp out/* /verif/seeded/$NAME/
-cd /verif
+mkdir -p $V/seeded/$NAME && cp out/* $V/seeded/$NAME/
+cd $V
 if ! git -C /repo apply --check $W/out/patch.diff; then echo "patch does not apply to /repo HEAD"; exit 2; fi
 git -C /repo apply $W/out/patch.diff
-echo "{\"confirmed\": \"demo passes on clean tree, fails with patch (run in scratch worktree $W)\", \"checks\": {" > /verif/seeded/$NAME/verif_result.json
-for c in "$@"; do ./check $c > /tmp/seed_check_$c.txt 2>&1; rc=$?; echo "\"$c\": {\"quick_rc\": $rc, \"clauses\": \"$(grep -o 'violated clause [A-Za-z_]*' /tmp/seed_check_$c.txt | sort | uniq -c | tr '\n' ';' | tr -s ' ')\"}," >> /verif/seeded/$NAME/verif_result.json; grep -E "VIOLATION|violated clause|INCONCLUSIVE|validated" /tmp/seed_check_$c.txt | cut -c1-400 | head -5; echo "$c rc=$rc"; done
-echo "\"_\": {}}}" >> /verif/seeded/$NAME/verif_result.json
+echo "{\"confirmed\": \"demo passes on clean tree, fails with patch (run in scratch worktree $W)\", \"checks\": {" > $V/seeded/$NAME/verif_result.json
+for c in "$@"; do ./check $c > /tmp/seed_check_$c.txt 2>&1; rc=$?; echo "\"$c\": {\"quick_rc\": $rc, \"clauses\": \"$(grep -o 'violated clause [A-Za-z_]*' /tmp/seed_check_$c.txt | sort | uniq -c | tr '\n' ';' | tr -s ' ')\"}," >> $V/seeded/$NAME/verif_result.json; grep -E "VIOLATION|violated clause|INCONCLUSIVE|validated" /tmp/seed_check_$c.txt | cut -c1-400 | head -5; echo "$c rc=$rc"; done
+echo "\"_\": {}}}" >> $V/seeded/$NAME/verif_result.json
 git -C /repo checkout -- .
 git -C /repo status --short | head -3
